@@ -23,7 +23,7 @@ TRUSTED = [
     'eager-syntax-error finding), expression evaluation beyond variable look-up / truthiness / iteration / string splice, attributes, '
     'py:choose/with/attrs/content/replace/strip, macro arguments, match paths other than a single element name, selections other than *|text(), '
     'absolute paths, search-path load functions other than directories, the loader cache bound and mtime checks (C15), '
-    'the loader state after a failed render (sequences are compared up to the first failure in inline mode)',
+    'after a render that hit the recursion limit (fuel 24 vs 420 Python frames: different sets loaded) or an ill-formed file (a preparation that fails part-way: the model drops what was prepared inside it) the sequences are no longer compared',
     'fuel stands for Python recursion depth: "terminates" is compared (model fuel 24, Python recursion limit 420, generated terminating trees far below, '
     'diverging ones far above), not the exact depth at which CPython gives up; trees whose rendering exceeds a deterministic work bound on the real code '
     '(loads, events, match templates, match-list walks) are skipped and counted',
@@ -39,7 +39,7 @@ ASSUMPTIONS = [
 ]
 
 FUEL = 24
-NL = 4          # request lines per case
+NL = 5          # request lines per case
 TREES = os.path.join(BUILD, 'c11')
 
 
@@ -125,17 +125,13 @@ def w_reqs(case):
 
 def seq_lines(case):
     files = w_files(case)
-    return [proto.line(Atom('C11'), Atom('chain'), Atom(m), FUEL, files, w_reqs(case)) for m in ('inline', 'runtime')]
+    return [proto.line(Atom('C11'), Atom('chainc'), Atom(m), FUEL, files, w_reqs(case)) for m in ('inline', 'runtime')]
 
 
-def seq_outcomes(ans):
-    """decode a seq answer into a list of outcomes (None: unmodelled)"""
-    if ans == 'unmodelled':
-        return None
-    toks = ans.split()
-    # top-level list of outcomes: split at depth 1
+def _split_top(toks):
+    """the items of a parenthesised token list, each as its token list"""
     assert toks[0] == '(' and toks[-1] == ')'
-    outs, depth, cur = [], 0, []
+    items, depth, cur = [], 0, []
     for t in toks[1:-1]:
         cur.append(t)
         if t == '(':
@@ -143,9 +139,21 @@ def seq_outcomes(ans):
         elif t == ')':
             depth -= 1
         if depth == 0:
-            outs.append(model_outcome(' '.join(cur)))
+            items.append(cur)
             cur = []
-    return outs
+    return items
+
+
+def seq_outcomes(ans):
+    """decode a `chainc` answer into (outcomes, prepared names after each request) (None: unmodelled)"""
+    if ans == 'unmodelled':
+        return None
+    outs, caches = [], []
+    for item in _split_top(ans.split()):
+        o, c = _split_top(item)
+        outs.append(model_outcome(' '.join(o)))
+        caches.append(sorted(str(x) for x in proto.dec(' '.join(c))))
+    return outs, caches
 
 
 def model_lines(case):
@@ -153,7 +161,9 @@ def model_lines(case):
     kind = Atom(G.entry_kind(case))
     return [proto.line(Atom('C11'), Atom('render'), Atom(m), FUEL, files, case['entry'], kind, data)
             for m in ('inline', 'runtime')] + [proto.line(Atom('C11'), Atom('inh'), files),
-                                               proto.line(Atom('C11'), Atom('kept'), files, case['entry'], kind)]
+                                               proto.line(Atom('C11'), Atom('kept'), files, case['entry'], kind),
+                                               proto.line(Atom('C11'), Atom('render'), Atom('inplace'), FUEL, files,
+                                                          case['entry'], kind, data)]
 
 
 ERRMAP = {'NotFound': 'TemplateNotFound', 'Syntax': 'TemplateSyntaxError', 'Undefined': 'UndefinedError'}
@@ -289,19 +299,40 @@ def shard(arg):
         if i in seq_at:
             res.count('requests-through-one-loader:%d' % len(G.requests(case)))
             for j, m in enumerate(('inline', 'runtime')):
-                mo = seq_outcomes(answers[seq_at[i] + j])
-                if mo is None:
+                dec = seq_outcomes(answers[seq_at[i] + j])
+                if dec is None:
                     continue
+                mo, mc = dec
                 ro = [real[m]] + real[m + '_then']
-                if m == 'inline':
-                    # after a failed render the real loader may hold prepared templates the model's
-                    # does not: compare up to and including the first failure
-                    k = next((x + 1 for x, o in enumerate(ro) if o[0] != 'ok'), len(ro))
-                    ro, mo = ro[:k], mo[:k]
+                # the model keeps what a failed render had loaded and prepared (renderSeqF), like the loader does:
+                # the whole sequence is compared.  Only where a render hits the recursion limit the two sides stop
+                # at different depths (fuel 24 vs 420 Python frames) and have loaded different sets: from the
+                # request after that one on the comparison would be about the limits, not about the code
+                # (the same after a TemplateSyntaxError: an ill-formed file -- outside the property's quantifier -- met
+                # while a template is being prepared leaves the templates prepared inside it before that point in the
+                # loader; the model's preparation drops its cache on an error)
+                CUT = (['err', 'RecursionError'], ['err', 'TemplateSyntaxError'])
+                k = next((x + 1 for x, o in enumerate(ro) if o in CUT), len(ro))
+                if k < len(ro):
+                    res.count('sequence:cut-after-%s' % ro[k - 1][1])
+                if any(o[0] != 'ok' for o in ro[:k - 1]):
+                    res.count('sequence:request-after-failed-render:' + m)
                 res.streams['sequence-' + m] = res.streams.get('sequence-' + m, 0) + 1
-                if mo != ro:
-                    res.disagreements.append({'stream': 'sequence-' + m, 'case': case, 'model': repr(mo)[:600],
-                                              'real': repr(ro)[:600], 'sources': sources(case)})
+                if mo[:k] != ro[:k]:
+                    res.disagreements.append({'stream': 'sequence-' + m, 'case': case, 'model': repr(mo[:k])[:600],
+                                              'real': repr(ro[:k])[:600], 'sources': sources(case)})
+                if m == 'inline' and real.get('inline_prepared') is not None:
+                    # the loader's state itself: which templates it holds prepared after every request, failed
+                    # requests included (up to the first one that hit the recursion limit / an ill-formed file, exclusive)
+                    kk = next((x for x, o in enumerate(ro) if o in CUT), len(ro))
+                    rc = real['inline_prepared'][:kk]
+                    res.streams['loader-after-request'] = res.streams.get('loader-after-request', 0) + 1
+                    for x, o in enumerate(ro[:kk]):
+                        if o[0] != 'ok':
+                            res.count('loader-after-failed-render:%s:%d-prepared' % (o[1], min(len(rc[x]), 3)))
+                    if mc[:kk] != rc:
+                        res.disagreements.append({'stream': 'loader-after-request', 'case': case, 'model': repr(mc[:kk])[:600],
+                                                  'real': repr(rc)[:600], 'sources': sources(case)})
         inh = G.in_hypothesis(case) and G.modelled(case)
         res.count('hypothesis:' + ('inside' if inh else 'outside'))
         res.count('outcome:' + (real['runtime'][0] if real['runtime'][0] == 'ok' else real['runtime'][1]))
@@ -332,6 +363,23 @@ def shard(arg):
         if lean_inh != G.in_hypothesis(case):
             res.disagreements.append({'stream': 'hypothesis', 'case': case, 'model': repr(lean_inh),
                                       'real': repr(G.in_hypothesis(case)), 'sources': sources(case)})
+        # the Lean specification evaluator (an include is rendered as its target's nodes in place), where
+        # `runtime_eq_spec_partial` speaks (no match template defined in the file set): against the real code
+        sa = answers[NL * i + 4]
+        if sa == 'na':
+            res.count('spec-lean:file-set-has-match-templates')
+        else:
+            so = model_outcome(sa)
+            if so is None:
+                res.count('spec-lean:unmodelled')
+            else:
+                res.streams['spec-lean'] = res.streams.get('spec-lean', 0) + 1
+                res.count('spec-lean:' + (so[0] if so[0] == 'ok' else so[1]))
+                if st.get('include-found') or st.get('include-fallback'):
+                    res.count('spec-lean:with-includes')
+                if so != real['runtime']:
+                    res.disagreements.append({'stream': 'spec-lean', 'case': case, 'model': repr(so)[:600],
+                                              'real': repr(real['runtime'])[:600], 'sources': sources(case)})
         if real.get('kept') is not None:
             ka = answers[NL * i + 3]
             mk = None if ka in ('err', 'fuel') else list(proto.dec(ka))[1:] if ka != '( ok )' else []
